@@ -182,9 +182,9 @@ func fillerCalls(n int) {
 		case 5:
 			// the markers of nested validation on a scalar (a rule-writing error) with and without a message
 			_ = valid.Struct(&struct {
-				A string `valid:"exist|filler msg"`
-				B int    `valid:"exist"`
-			}{"x", i + 1})
+				A, C, D, E, F, G, H, I string `valid:"exist|filler msg"`
+				B                      int    `valid:"exist"`
+			}{"x", "x", "x", "x", "x", "x", "x", "x", i + 1})
 		default:
 			_ = valid.ValidNamesSplit("required,re='a,b" + fmt.Sprint(i) + "',to=1~2|x")
 			_ = valid.GetOnlyExplainErr(`"A" input "1", explain: filler; "B" input "", 说明: 填充`)
@@ -265,6 +265,12 @@ func checkC12(c *C12Case) (string, c12Facts) {
 	fillerCalls(c.Filler)
 	if m := checkRetained(held); m != "" {
 		return m, facts
+	}
+	// ... and the calls give what they gave in a fresh state, however many calls lie in between
+	for _, i := range order {
+		if o := c.Calls[i].prepare().run(); !sameOutcome(o, refs[i], unordered[i]) {
+			return fmt.Sprintf("after %d filler calls: call %d gives %v, in a fresh state it gives %v", c.Filler, i, o, refs[i]), facts
+		}
 	}
 	if m := checkRetained(ring); m != "" {
 		return m + " [retained from an earlier case of this process]", facts
